@@ -48,6 +48,8 @@ class Ctx:
       return f
     if f == 'logica_value':
       return 99
+    if isinstance(f, str) and re.fullmatch(r'col(0|[1-9]\d*)', f):     # positional N and named colN are one column
+      return int(f[3:])
     return 100 + self.fields.setdefault(f, len(self.fields))
 
 
@@ -104,7 +106,7 @@ def crule_of(rule, cx):
     raise Unsupported('distinct')
   body = []
   natoms = 0
-  for c in rule['body']['conjunction']['conjunct']:
+  for c in (rule['body']['conjunction']['conjunct'] if 'body' in rule else []):
     if 'predicate' in c:
       name = c['predicate']['predicate_name']
       if name in CONSTRAINT_PREDICATES:
